@@ -109,7 +109,7 @@ def check(spec, ctx):
                         cls.__name__, name, str(getattr(part, name)()), str(getattr(gen_ent, name)())))
             if str(sut(part.target_sequence).seq) != str(gen_ent.target_sequence().seq):
                 raise Violation("VALUES", "%s target differs from the generic class's" % cls.__name__)
-        degenerate = "N" in sig[0] + sig[1] or any(c not in "ACGT" for c in sig[0] + sig[1])
+        degenerate = any(c not in "ACGT" for c in (sig[0] + sig[1]).upper())
         classes = ["part:" + spec["part"].split(":")[0].split(".")[0], "verdict:%s" % got,
                    "style:" + spec.get("style", "?")]
         ctx.note(spec, spec.get("style") == "near-miss" or degenerate, classes)
@@ -198,7 +198,7 @@ def _member(sig, filler):
 
 def _near_miss(sig, member, pos, letter_idx):
     pos %= len(sig)
-    outside = [c for c in "ACGT" if c not in dna.IUPAC[sig[pos]]]
+    outside = [c for c in "ACGT" if c not in dna.IUPAC[sig[pos].upper()]]
     if not outside:
         return member
     return member[:pos] + outside[letter_idx % len(outside)] + member[pos + 1:]
